@@ -322,6 +322,7 @@ def run_receiver(case) -> CaseResult:
         paused = False
         k = 0
         violated = False
+        half_closed = False
 
         def delivered() -> bytes:
             if text:
@@ -372,7 +373,17 @@ def run_receiver(case) -> CaseResult:
 
                     if len(delivered()) < len(expected):
                         labels.add('partial-resume:backlog-left')
+            elif op[0] == 'half-close':
+                # the receiving application ends its own output: the other
+                # direction stays open and is still flow-controlled
+                if not half_closed:
+                    half_closed = True
+                    link.h.call(chan.write_eof)
+                    link.pump()
             elif op[0] == 'send':
+                if half_closed:
+                    labels.add('data-after-own-eof')
+
                 remaining = rch.send_window       # granted and unused
                 kind = op[1]
                 n = {'inside': max(1, min(op[2], remaining)),
@@ -520,7 +531,12 @@ def receiver_strategy(tier: str):
                      pick(['inside', 'inside', 'half', 'exact', 'plus1',
                            'far']),
                      pick([1, 2, 10, 100, 5000])).map(list)
-    op = st.one_of(send, send, send, st.just(['pause']), st.just(['resume']),
+    op = st.one_of(send, send, send, send, send, send,
+                   st.just(['pause']), st.just(['pause']),
+                   st.just(['resume']), st.just(['resume']),
+                   st.just(['half-close']),
+                   st.tuples(st.just('resume-partly'),
+                             pick([1, 1, 2, 3])).map(list),
                    st.tuples(st.just('resume-partly'),
                              pick([1, 1, 2, 3])).map(list))
     # a backlog of several packets built up while paused, handed over only
@@ -814,7 +830,8 @@ FAMILIES = [
                              'pause', 'partial-resume',
                              'partial-resume:backlog-left', 'text-channel',
                              'chan:tun', 'chan:tap',
-                             'text:packet-of-partial-character']},
+                             'text:packet-of-partial-character',
+                             'data-after-own-eof']},
            case_timeout=120, timeout_is_violation=True),
     Family('streams', run_streams, strategy=streams_strategy,
            budget={'quick': 1200, 'thorough': 16000},
